@@ -328,3 +328,156 @@ pub fn c14_tone_mapping_roundtrip() {
         }
     }
 }
+
+/// Custom xy with concrete selectors (so that the writer's bit positions stay concrete) and
+/// symbolic values; symbolic selectors are covered by c14_customxy_roundtrip.
+fn put_customxy(w: &mut BitWriter, s0: usize, s1: usize) -> (i64, i64) {
+    let (ux, uy): (u32, u32) = (kani::any(), kani::any());
+    kani::assume(put_u32(w, XY_DIST, s0, ux));
+    kani::assume(put_u32(w, XY_DIST, s1, uy));
+    let unpack = |u: u32| -> i64 { if u % 2 == 0 { (u / 2) as i64 } else { -(((u as i64) + 1) / 2) } };
+    (unpack(ux), unpack(uy))
+}
+
+fn xy_eq(c: &jxl_image::color::Customxy, want: (i64, i64)) -> bool {
+    c.x as i64 == want.0 && c.y as i64 == want.1
+}
+
+/// One ColourEncoding layout: colour space, white point code and primaries code are concrete (they
+/// fix which fields exist, and keeping them concrete keeps the writer's bit positions concrete up to
+/// the first custom coordinate); everything else is symbolic.
+fn colour_encoding_case(cs: u32, wp: u32, pr: u32, want_icc: bool, have_gamma: bool) {
+    use jxl_image::color::*;
+    let mut w = BitWriter::new();
+    w.put_bool(false); // all_default
+    let gamma: u32 = kani::any();
+    kani::assume(gamma < (1 << 24));
+    let tf: u32 = kani::any();
+    kani::assume(tf == 1 || tf == 2 || tf == 8 || tf == 13 || tf == 16 || tf == 17 || tf == 18);
+    let ri: u32 = kani::any();
+    kani::assume(ri <= 3);
+    let mut white = (0, 0);
+    let mut prim = [(0, 0); 3];
+    w.put_bool(want_icc);
+    assert!(put_enum(&mut w, cs));
+    if !want_icc {
+        assert!(put_enum(&mut w, wp));
+        if wp == 2 {
+            white = put_customxy(&mut w, 0, 3);
+        }
+        if cs != 1 {
+            assert!(put_enum(&mut w, pr));
+            if pr == 2 {
+                prim[0] = put_customxy(&mut w, 1, 2);
+                prim[1] = put_customxy(&mut w, 3, 0);
+                prim[2] = put_customxy(&mut w, 2, 1);
+            }
+        }
+        w.put_bool(have_gamma);
+        if have_gamma {
+            w.put(gamma as u64, 24);
+        } else {
+            kani::assume(put_enum(&mut w, tf));
+        }
+        kani::assume(put_enum(&mut w, ri));
+    }
+    let expect_bits = w.nbits;
+    kani::assume(expect_bits + 9 <= BitWriter::CAP_BITS);
+    w.put(kani::any::<u64>(), 9);
+    let bytes = w.bytes();
+    let mut bs = Bitstream::new(&bytes[..]);
+    let ce = ColourEncoding::parse(&mut bs, ()).unwrap();
+    assert!(bs.num_read_bits() == expect_bits);
+    assert!(ce.want_icc() == want_icc);
+    assert!(ce.colour_space() as u32 == cs);
+    if let ColourEncoding::Enum(e) = &ce {
+        match e.white_point {
+            WhitePoint::D65 => assert!(wp == 1),
+            WhitePoint::E => assert!(wp == 10),
+            WhitePoint::Dci => assert!(wp == 11),
+            WhitePoint::Custom(c) => assert!(wp == 2 && xy_eq(&c, white)),
+        }
+        match e.primaries {
+            Primaries::Srgb => assert!(cs == 1 || pr == 1),
+            Primaries::Bt2100 => assert!(cs != 1 && pr == 9),
+            Primaries::P3 => assert!(cs != 1 && pr == 11),
+            Primaries::Custom { red, green, blue } => assert!(cs != 1 && pr == 2 && xy_eq(&red, prim[0]) && xy_eq(&green, prim[1]) && xy_eq(&blue, prim[2])),
+        }
+        match e.tf {
+            TransferFunction::Gamma { g, inverted } => assert!(have_gamma && g == gamma && inverted),
+            TransferFunction::Bt709 => assert!(!have_gamma && tf == 1),
+            TransferFunction::Unknown => assert!(!have_gamma && tf == 2),
+            TransferFunction::Linear => assert!(!have_gamma && tf == 8),
+            TransferFunction::Srgb => assert!(!have_gamma && tf == 13),
+            TransferFunction::Pq => assert!(!have_gamma && tf == 16),
+            TransferFunction::Dci => assert!(!have_gamma && tf == 17),
+            TransferFunction::Hlg => assert!(!have_gamma && tf == 18),
+        }
+        assert!(e.rendering_intent as u32 == ri);
+    }
+}
+
+// @prop C14
+// @tier quick
+// @unit jxl_image::color::{ColourEncoding,WhitePoint,Primaries,TransferFunction}::parse, Bitstream::read_enum
+// @sym enum colour encodings: layouts (colour space, white point code, primaries code, ICC flag, gamma flag) fixed per harness; this one: RGB / D65 / sRGB primaries / named transfer function; symbolic: custom xy values (selectors fixed per coordinate; all selectors are in c14_customxy_roundtrip), any 24-bit gamma, any of the seven named transfer functions, rendering intent
+// @bound one layout per harness (five harnesses: four layouts without custom coordinates, one with a custom white point); custom primaries (six chained variable-length fields) are outside: the harness for them did not finish (DESIGN 8.8); colour space XYB left out (for XYB the reference implementation skips the transfer function field while jxl-oxide reads it; which one the standard's table mandates could not be settled offline, DESIGN 8.6)
+// @oblig every reported field equals what was written: colour space, ICC flag, white point incl. custom coordinates, primaries (present iff the space is not Grey), gamma or named transfer function, rendering intent; exact bit count
+#[kani::proof]
+#[kani::unwind(9)]
+pub fn c14_colour_encoding_rgb_d65_srgb() {
+    colour_encoding_case(0, 1, 1, false, false);
+    kani::cover!(true, "layout executed");
+}
+
+// @prop C14
+// @tier quick
+// @unit jxl_image::color::{ColourEncoding,WhitePoint,Primaries,TransferFunction}::parse, Bitstream::read_enum
+// @sym enum colour encodings: layouts (colour space, white point code, primaries code, ICC flag, gamma flag) fixed per harness; this one: Grey / E / gamma; symbolic: custom xy values (selectors fixed per coordinate; all selectors are in c14_customxy_roundtrip), any 24-bit gamma, any of the seven named transfer functions, rendering intent
+// @bound one layout per harness (five harnesses: four layouts without custom coordinates, one with a custom white point); custom primaries (six chained variable-length fields) are outside: the harness for them did not finish (DESIGN 8.8); colour space XYB left out (for XYB the reference implementation skips the transfer function field while jxl-oxide reads it; which one the standard's table mandates could not be settled offline, DESIGN 8.6)
+// @oblig every reported field equals what was written: colour space, ICC flag, white point incl. custom coordinates, primaries (present iff the space is not Grey), gamma or named transfer function, rendering intent; exact bit count
+#[kani::proof]
+#[kani::unwind(9)]
+pub fn c14_colour_encoding_grey_e_gamma() {
+    colour_encoding_case(1, 10, 1, false, true);
+    kani::cover!(true, "layout executed");
+}
+
+// @prop C14
+// @tier quick
+// @unit jxl_image::color::{ColourEncoding,WhitePoint,Primaries,TransferFunction}::parse, Bitstream::read_enum
+// @sym enum colour encodings: layouts (colour space, white point code, primaries code, ICC flag, gamma flag) fixed per harness; this one: Unknown / DCI / P3 / named transfer function; symbolic: custom xy values (selectors fixed per coordinate; all selectors are in c14_customxy_roundtrip), any 24-bit gamma, any of the seven named transfer functions, rendering intent
+// @bound one layout per harness (five harnesses: four layouts without custom coordinates, one with a custom white point); custom primaries (six chained variable-length fields) are outside: the harness for them did not finish (DESIGN 8.8); colour space XYB left out (for XYB the reference implementation skips the transfer function field while jxl-oxide reads it; which one the standard's table mandates could not be settled offline, DESIGN 8.6)
+// @oblig every reported field equals what was written: colour space, ICC flag, white point incl. custom coordinates, primaries (present iff the space is not Grey), gamma or named transfer function, rendering intent; exact bit count
+#[kani::proof]
+#[kani::unwind(9)]
+pub fn c14_colour_encoding_unknown_dci_p3() {
+    colour_encoding_case(3, 11, 11, false, false);
+    kani::cover!(true, "layout executed");
+}
+
+// @prop C14
+// @tier quick
+// @unit jxl_image::color::{ColourEncoding,WhitePoint,Primaries,TransferFunction}::parse, Bitstream::read_enum
+// @sym enum colour encodings: layouts (colour space, white point code, primaries code, ICC flag, gamma flag) fixed per harness; this one: Grey with the ICC flag (no further fields); symbolic: custom xy values (selectors fixed per coordinate; all selectors are in c14_customxy_roundtrip), any 24-bit gamma, any of the seven named transfer functions, rendering intent
+// @bound one layout per harness (five harnesses: four layouts without custom coordinates, one with a custom white point); custom primaries (six chained variable-length fields) are outside: the harness for them did not finish (DESIGN 8.8); colour space XYB left out (for XYB the reference implementation skips the transfer function field while jxl-oxide reads it; which one the standard's table mandates could not be settled offline, DESIGN 8.6)
+// @oblig every reported field equals what was written: colour space, ICC flag, white point incl. custom coordinates, primaries (present iff the space is not Grey), gamma or named transfer function, rendering intent; exact bit count
+#[kani::proof]
+#[kani::unwind(9)]
+pub fn c14_colour_encoding_grey_icc() {
+    colour_encoding_case(1, 1, 1, true, false);
+    kani::cover!(true, "layout executed");
+}
+
+// @prop C14
+// @tier quick
+// @unit as c14_colour_encoding_rgb_d65_srgb
+// @sym as c14_colour_encoding_rgb_d65_srgb for the layout RGB / custom white point / BT.2100 / gamma
+// @bound one layout
+// @oblig as c14_colour_encoding_rgb_d65_srgb, incl. the custom white point
+#[kani::proof]
+#[kani::unwind(9)]
+pub fn c14_colour_encoding_custom_white_roundtrip() {
+    colour_encoding_case(0, 2, 9, false, true);
+    kani::cover!(true, "layout executed");
+}
